@@ -97,7 +97,9 @@ pub fn run(args: &Args, rep: &mut Report) {
     } else {
         &[(2, 2), (3, 1), (1, 1), (1, 3)]
     };
-    let rounds_per_config: u64 = if thorough { 18_000 } else { 1_500 };
+    let miri = args.miri();
+    let configs: &[(usize, usize)] = if miri { &[(2, 1), (1, 2)] } else { configs };
+    let rounds_per_config: u64 = if miri { 3 } else if thorough { 18_000 } else { 1_500 };
     rep.note(format!(
         "available_parallelism={} configs={:?} rounds/config={}",
         ncpu, configs, rounds_per_config
